@@ -246,9 +246,12 @@ ArgCountOK(nargs, nparams) == IF nargs < nparams THEN Rej({510})
                               ELSE IF nargs > nparams THEN Rej({511}) ELSE Ok(<<"void">>)
 
 \* `return: &^ka v` in a function declared `-> RT` (errors.md E333)
+\* A function declared without a return type returns nothing: a return value there is E330 ("the return
+\* type is missing from a function with a return value"; the two sides of the return differ: E333).
 ReturnOK(RT, DA, ka) ==
     LET tr  == ExprType(DA, ka)
         all == (IF Excess(DA, ka) THEN {538, 333} ELSE {}) \cup (IF tr # RT THEN {333} ELSE {}) \cup AggCodes(tr)
+                  \cup (IF RT = <<"void">> THEN {330} ELSE {})
     IN IF all = {} THEN Ok(RT) ELSE Rej(all)
 
 (***************************************************************************)
@@ -268,6 +271,10 @@ ReturnOK(RT, DA, ka) ==
 (*   elem     a, b types of the two elements                               *)
 (*   arg      a,ka argument variable, b declared parameter type            *)
 (*   arg2     the same for the SECOND argument of a two-parameter function *)
+(*   argp     the same for the argument at position i of an n-parameter    *)
+(*            function (v = "n:i"; the other arguments fit), optionally    *)
+(*            with the same function called a second time, correctly, in   *)
+(*            the same statement (v = "n:i:tl" / "n:i:tr")                 *)
 (*   argn     ka arguments for kb parameters                               *)
 (*   ret      a,ka returned variable, b declared return type               *)
 (***************************************************************************)
@@ -277,6 +284,20 @@ ReturnOK(RT, DA, ka) ==
 (* operand of a cast / operator, as return value, in a condition) and y, the statement context of the   *)
 (* statement (top level, block, loop block, then / else / else-if arms, after a label).  The typing     *)
 (* rules are context independent: Verdict(c) is the same for every x and y.                             *)
+(* Likewise IGNORED (dimensions of the generator, no part of the judgement):                            *)
+(*   fa, fb  the syntactic FORM of the operand a / b: a variable, the result of a call (with or without  *)
+(*           arguments), of a cast, a named constant, an element of an array / of a nested array / of a *)
+(*           view parameter, a member / a member of a member / a member through a pointer parameter, a   *)
+(*           suffixed literal, a parenthesised variable, `|x|`, `|:T|` (both of type usize: errors.md    *)
+(*           E502, E359 examples) -- only the TYPE of an operand matters;                                *)
+(*   pre     a second unit next to the construct: a well-typed call statement before it, an independent  *)
+(*           ill-typed statement before / after it, a function with a well-typed / ill-typed body or an  *)
+(*           ill-typed return value before / after the function of the construct.  Independent           *)
+(*           constructs are judged independently (DESIGN.md 3: one diagnostic per minimal offending      *)
+(*           construct): the verdict of the construct does not depend on its neighbours;                 *)
+(*   v       variants: which of n arguments is the one described, whether the callee is a head, has a     *)
+(*           body before / after its caller, is `pub` or `extern`; whether an array length is written    *)
+(*           as a number or as a named constant of that value (`[N3]i32` IS `[3]i32` when N3 = 3).      *)
 OperandExcess(c) == Excess(c.a, c.ka) \/ (c.ctx \in {"bin", "cmp"} /\ Excess(c.b, c.kb))
 Verdict(c) ==
     CASE c.ctx = "bin"    -> IF OperandExcess(c) THEN Rej({538, 550, 551})
@@ -291,7 +312,7 @@ Verdict(c) ==
       [] c.ctx = "member" -> MemberOK(c.b, c.a, c.ka)
       [] c.ctx = "const"  -> ConstOK(c.b, c.a)
       [] c.ctx = "elem"   -> ElemOK(c.a, c.b)
-      [] c.ctx \in {"arg", "arg2"} -> ArgOK(c.a, c.ka, c.b)
+      [] c.ctx \in {"arg", "arg2", "argp"} -> ArgOK(c.a, c.ka, c.b)
       [] c.ctx = "argn"   -> ArgCountOK(c.ka, c.kb)
       [] c.ctx = "ret"    -> ReturnOK(c.b, c.a, c.ka)
 
